@@ -542,9 +542,13 @@ fn handle_need(
                                     WHERE actor_id = :actor_id
                                       AND :version BETWEEN start AND end
                             ) AS in_gaps,
+                            -- the sequence bookkeeping is what makes a version 'partially
+                            -- received': chunks without any live change leave no buffered rows,
+                            -- and buffered rows of a version that became fully known linger
+                            -- until the background clear gets to them
                             EXISTS(
                                 SELECT 1
-                                FROM __corro_buffered_changes
+                                FROM __corro_seq_bookkeeping
                                     WHERE site_id = :actor_id
                                       AND db_version = :version
                             ) AS buffered",
@@ -681,9 +685,13 @@ fn handle_need(
                                     WHERE actor_id = :actor_id
                                       AND :version BETWEEN start AND end
                             ) AS in_gaps,
+                            -- the sequence bookkeeping is what makes a version 'partially
+                            -- received': chunks without any live change leave no buffered rows,
+                            -- and buffered rows of a version that became fully known linger
+                            -- until the background clear gets to them
                             EXISTS(
                                 SELECT 1
-                                FROM __corro_buffered_changes
+                                FROM __corro_seq_bookkeeping
                                     WHERE site_id = :actor_id
                                       AND db_version = :version
                             ) AS buffered",
